@@ -107,15 +107,20 @@ func dedupLoop(configArgs map[string]string, w *fsnotify.Watcher, completedChann
 		for {
 			dirsToWatch := generateInWatchMode(configArgs)
 			watched := w.WatchList()
-			newlyWatched := false
 			for _, dir := range dirsToWatch {
-				if !slices.Contains(watched, dir) {
-					newlyWatched = true
-				}
 				// adding a directory that is already watched is a no-op
 				if err := w.Add(dir); err != nil {
 					completedChannel <- err
 					return
+				}
+			}
+
+			// The watch list names a directory only once, however many paths lead to it,
+			// so whether a watch is new can only be told from the list itself.
+			newlyWatched := false
+			for _, dir := range w.WatchList() {
+				if !slices.Contains(watched, dir) {
+					newlyWatched = true
 				}
 			}
 
